@@ -1,13 +1,464 @@
 #!/usr/bin/env python3
-"""Translator: /repo/src -> lean/BroodModel/Generated/*.lean (DESIGN §5.1)."""
-import argparse, json, os, sys
+"""Translator: /repo/src -> lean/BroodModel/Generated/Tables.lean (DESIGN §5.1).
+
+The parts of brood that are declarative tables written as trait impls (or tiny match tables) are
+re-extracted from the current source on every run and written as Lean literals; the theorems in
+lean/BroodModel/Props about them are then re-checked by the kernel against what the code says now.
+
+A table whose shape cannot be parsed is an error (never silently defaulted): the script exits 1 and
+the check reports the broken obligation.  The extraction report lists file, line and text of each
+extracted item and is copied into the evidence.
+"""
+import argparse
+import json
+import os
+import re
+import sys
+
+REPORT = {"items": [], "errors": []}
+
+
+def strip_comments(text):
+    out = []
+    for line in text.splitlines():
+        i = line.find("//")
+        out.append(line if i < 0 else line[:i])
+    return "\n".join(out)
+
+
+def cut_tests(text):
+    i = text.find("#[cfg(test)]")
+    return text if i < 0 else text[:i]
+
+
+def read(repo, rel):
+    p = os.path.join(repo, "src", rel)
+    return cut_tests(open(p).read())
+
+
+def lineno(text, pos):
+    return text.count("\n", 0, pos) + 1
+
+
+def item(table, rel, line, text, value):
+    REPORT["items"].append({"table": table, "file": "src/" + rel, "line": line, "text": " ".join(text.split())[:200], "value": value})
+
+
+def err(msg):
+    REPORT["errors"].append(msg)
+
+
+VK = {"&'a T": "ref", "&'a mut T": "mut", "Option<&'a T>": "oref", "Option<&'a mut T>": "omut"}
+VKC = {"&'a Component": "ref", "&'a mut Component": "mut", "Option<&'a Component>": "oref",
+       "Option<&'a mut Component>": "omut", "entity::Identifier": "ident"}
+
+
+def impl_blocks(text):
+    """Yield (start, block_text) for each top-level `impl`/`unsafe impl` item."""
+    for m in re.finditer(r"^(unsafe )?impl\b", text, flags=re.M):
+        start = m.start()
+        i = text.find("{", start)
+        if i < 0:
+            continue
+        depth, j = 0, i
+        while j < len(text):
+            if text[j] == "{":
+                depth += 1
+            elif text[j] == "}":
+                depth -= 1
+                if depth == 0:
+                    break
+            j += 1
+        yield start, text[start:j + 1]
+
+
+def verifier_table(repo):
+    rel = "system/schedule/claim/verifier.rs"
+    raw = read(repo, rel)
+    text = strip_comments(raw)
+    rows = []
+    null_decision = None
+    ident_next = False
+    for start, b in impl_blocks(text):
+        flat = " ".join(b.split())
+        if "Verifier<" not in flat:
+            continue
+        ln = lineno(text, start)
+        m = re.search(r"Verifier<'a, R, C, Null, Null> for view::Null \{ type Decision = decision::(\w+);", flat)
+        if m:
+            null_decision = m.group(1)
+            item("verifierTable", rel, ln, flat, {"null": null_decision})
+            continue
+        m = re.search(r"Verifier<'a, R, C, I, P> for \(entity::Identifier, U\) where U: Verifier<'a, R, C, I, P>, \{ type Decision = <U as Verifier<'a, R, C, I, P>>::Decision;", flat)
+        if m:
+            ident_next = True
+            item("verifierTable", rel, ln, flat, {"ident": "next"})
+            continue
+        m = re.search(r"Verifier<'a, R, C, \(I, IS\), \((\w+), P\)> for \((.+?), U\) where (R|C): Get<(.+?), I>, U: Verifier<'a, R, C, IS, P>, \{ type Decision = (.+?); \}", flat)
+        if not m:
+            err("verifier.rs:%d: impl shape not recognised: %s" % (ln, flat[:160]))
+            continue
+        tag, new, who, old, dec = m.groups()
+        if new not in VK:
+            err("verifier.rs:%d: unknown new view kind %r" % (ln, new)); continue
+        if who == "R":
+            if old != "T":
+                err("verifier.rs:%d: registry-side Get on %r" % (ln, old)); continue
+            oldk = "notPresent"
+        else:
+            if old not in VK:
+                err("verifier.rs:%d: unknown old view kind %r" % (ln, old)); continue
+            oldk = VK[old]
+        if dec == "decision::Cut":
+            d = "cut"
+        elif dec == "<U as Verifier<'a, R, C, IS, P>>::Decision":
+            d = "next"
+        else:
+            err("verifier.rs:%d: unknown decision %r" % (ln, dec)); continue
+        rows.append((VK[new], oldk, d, tag))
+        item("verifierTable", rel, ln, flat, {"new": VK[new], "old": oldk, "dec": d, "tag": tag})
+    if null_decision is None:
+        err("verifier.rs: no impl for view::Null")
+    if not ident_next:
+        err("verifier.rs: no pass-through impl for entity::Identifier")
+    return rows, null_decision or "Cut"
+
+
+def merger_table(repo):
+    rel = "system/schedule/claim/merger.rs"
+    text = strip_comments(read(repo, rel))
+    rows = []
+    for m in re.finditer(r"impl Merger for \((\w+), (\w+)\) \{\s*type Decision = (\w+);\s*\}", text):
+        rows.append(tuple(x.lower() for x in m.groups()))
+        item("mergerTable", rel, lineno(text, m.start()), m.group(0), rows[-1])
+    if len(rows) == 0:
+        err("merger.rs: no Merger impls found")
+    return rows
+
+
+def check_table(repo):
+    """claim/mod.rs: Null => Append; Check<Cut> => Cut; Check<Append> => rest of the claims."""
+    rel = "system/schedule/claim/mod.rs"
+    text = " ".join(strip_comments(read(repo, rel)).split())
+    null_append = bool(re.search(r"Claims<'_, V, Null, Null, R, Null> for Null \{ type Decision = decision::Append; \}", text))
+    cut_cut = bool(re.search(r"Check<'_, decision::Cut, V, Null, Null, R, Null> for T \{ type Decision = decision::Cut; \}", text))
+    app_rest = bool(re.search(r"Check<'a, decision::Append, V, I, P, R, RI> for \(C, T\) where T: Claims<'a, V, I, P, R, RI>, \{ type Decision = <T as Claims<'a, V, I, P, R, RI>>::Decision; \}", text))
+    item("checkTable", rel, 0, "Claims for Null / Check<Cut> / Check<Append>", [null_append, cut_cut, app_rest])
+    if not (null_append and cut_cut and app_rest):
+        err("claim/mod.rs: Claims/Check impls not in the expected shape: null_append=%s cut_cut=%s append_rest=%s" % (null_append, cut_cut, app_rest))
+    return null_append, cut_cut, app_rest
+
+
+def claim_try_merge(repo):
+    rel = "query/view/claim.rs"
+    text = strip_comments(read(repo, rel))
+    m = re.search(r"fn try_merge\(self, other: Self\) -> Option<Self> \{\s*match self \{(.*?)\n        \}\n    \}", text, flags=re.S)
+    names = ["None", "Immutable", "Mutable"]
+    table = {}
+    if not m:
+        err("claim.rs: Claim::try_merge not found")
+        return []
+    body = m.group(1)
+    arms = re.split(r"\n\s{12}Self::(\w+) =>", "\n" + body)
+    # arms = ['', name1, body1, name2, body2, ...]
+    it = iter(arms[1:])
+    for name, abody in zip(it, it):
+        flat = " ".join(abody.split()).rstrip(",")
+        def ev(other):
+            if flat == "Some(other)":
+                return other
+            mm = re.match(r"\{ if matches!\(other, Self::(\w+)\) \{ None \} else \{ Some\(self\) \} \}", flat)
+            if mm:
+                return None if other == mm.group(1) else name
+            mm = re.match(r"\{ if matches!\(other, Self::(\w+)\) \{ Some\(self\) \} else \{ None \} \}", flat)
+            if mm:
+                return name if other == mm.group(1) else None
+            raise ValueError(flat)
+        try:
+            for o in names:
+                table[(name, o)] = ev(o)
+        except ValueError as e:
+            err("claim.rs: arm for %s not recognised: %s" % (name, e))
+        item("claimTryMerge", rel, lineno(text, m.start()), "Self::%s => %s" % (name, flat), {o: table.get((name, o)) for o in names})
+    rows = []
+    for a in names:
+        for b in names:
+            if (a, b) not in table:
+                err("claim.rs: no arm for %s" % a)
+                return []
+            rows.append((a, b, table[(a, b)]))
+    return rows
+
+
+def subviewable_table(repo):
+    rel = "query/view/subset.rs"
+    text = strip_comments(read(repo, rel))
+    rows = []
+    for start, b in impl_blocks(text):
+        flat = " ".join(b.split())
+        m = re.search(r"SubViewable<'a, (.+?), index::Index> for \((.+?), Views\)", flat)
+        if not m:
+            continue
+        sub, sup = m.groups()
+        if sub not in VKC or sup not in VKC:
+            err("subset.rs:%d: unknown view kinds %r / %r" % (lineno(text, start), sub, sup)); continue
+        how = "assume_init" if "assume_init()" in flat else ""
+        if "unwrap_unchecked()" in flat:
+            how += "+unwrap_unchecked"
+        if "get_unchecked(indices.0)" in flat:
+            how += "+bit-test"
+        rows.append((VKC[sub], VKC[sup], how))
+        item("subViewable", rel, lineno(text, start), flat[:160], rows[-1])
+    if not rows:
+        err("subset.rs: no SubViewable impls found")
+    return rows
+
+
+def view_filter_table(repo):
+    """registry/contains/filter/sealed.rs: which views test the identifier bit when used as filters."""
+    rel = "registry/contains/filter/sealed.rs"
+    text = strip_comments(read(repo, rel))
+    kinds = {"&C": "ref", "&mut C": "mut", "Option<&C_>": "oref", "Option<&mut C_>": "omut",
+             "entity::Identifier": "ident", "Has<C>": "has", "None": "none", "view::Null": "vnull"}
+    rows = {}
+    for start, b in impl_blocks(text):
+        flat = " ".join(b.split())
+        m = re.search(r"Sealed<(.+?), (Contained|Null)> for", flat)
+        if not m or m.group(1) not in kinds:
+            continue
+        k = kinds[m.group(1)]
+        if re.search(r"unsafe \{ identifier\.get_unchecked\(R_::LEN - R::LEN - 1\) \}", flat):
+            rows[k] = True
+        elif re.search(r"-> bool where R_: Registry, \{ true \}", flat):
+            rows[k] = False
+        else:
+            err("filter/sealed.rs:%d: body of %s not recognised" % (lineno(text, start), m.group(1)))
+            continue
+        item("viewFilter", rel, lineno(text, start), flat[:140], {k: rows[k]})
+    comb = {}
+    flat_all = " ".join(text.split())
+    comb["and"] = "<R as Sealed<F0, I0>>::filter(identifier) && <R as Sealed<F1, I1>>::filter(identifier)" in flat_all
+    comb["or"] = "<R as Sealed<F0, I0>>::filter(identifier) || <R as Sealed<F1, I1>>::filter(identifier)" in flat_all
+    comb["not"] = "!<R as Sealed<F, I>>::filter(identifier)" in flat_all
+    comb["list_is_and"] = "<Self as Sealed<And<F, FS>, And<I, IS>>>::filter(identifier)" in flat_all
+    item("filterCombinators", rel, 0, "And / Or / Not / (F, FS)", comb)
+    for k in ("ref", "mut", "oref", "omut", "ident", "has", "none", "vnull"):
+        if k not in rows:
+            err("filter/sealed.rs: no base impl found for %s" % k)
+    for k, v in comb.items():
+        if not v:
+            err("filter/sealed.rs: combinator %s not in the expected shape" % k)
+    return rows, comb
+
+
+def send_sync_impls(repo):
+    out = []
+    for root, _, files in os.walk(os.path.join(repo, "src")):
+        for f in sorted(files):
+            if not f.endswith(".rs") or f == "verif.rs":
+                continue
+            p = os.path.join(root, f)
+            rel = os.path.relpath(p, os.path.join(repo, "src"))
+            text = strip_comments(cut_tests(open(p).read()))
+            for m in re.finditer(r"unsafe impl\s*<(.*?)>\s*(Send|Sync)\s+for\s+([\w:]+)\s*<(.*?)>\s*(where(.*?))?\{\s*\}", text, flags=re.S):
+                generics, tr, ty, _args, _w, where = m.groups()
+                bounds = []
+                for part in re.split(r",\s*(?=[\w:<>']+\s*:)", " ".join((where or "").split())):
+                    part = part.strip().rstrip(",")
+                    if ":" in part:
+                        lhs, rhs = part.split(":", 1)
+                        for b in rhs.split("+"):
+                            bounds.append((lhs.strip(), b.strip()))
+                # bounds written inline in the generics
+                for g in re.split(r",\s*", " ".join(generics.split())):
+                    if ":" in g and not g.startswith("'"):
+                        lhs, rhs = g.split(":", 1)
+                        for b in rhs.split("+"):
+                            bounds.append((lhs.strip(), b.strip()))
+                out.append((ty, tr, bounds, rel))
+                item("sendSyncImpls", rel, lineno(text, m.start()), m.group(0), {"type": ty, "trait": tr, "bounds": bounds})
+    if not out:
+        err("no unsafe Send/Sync impls found")
+    return out
+
+
+def entry_query_sigs(repo):
+    """Is the lifetime of the views returned by `query` the lifetime of the `&mut self` borrow?"""
+    out = []
+    for rel in ("world/entry.rs", "query/entries.rs"):
+        text = strip_comments(read(repo, rel))
+        for m in re.finditer(r"pub fn query<(.*?)>\(\s*&(('\w+) )?mut self,.*?\)\s*->\s*Option<(\w+)>\s*where(.*?)\{", text, flags=re.S):
+            generics, _, self_lt, ret, where = m.groups()
+            mm = re.search(re.escape(ret) + r":[^,]*?view::Views<('\w+)>", " ".join(where.split()))
+            views_lt = mm.group(1) if mm else None
+            declared = [g.strip() for g in generics.split(",")]
+            tied = bool(self_lt) and views_lt == self_lt and self_lt in declared
+            out.append((rel, tied, self_lt or "(elided)", views_lt or "?"))
+            item("entryQuerySigs", rel, lineno(text, m.start()), m.group(0)[:200], {"tied_to_self_borrow": tied, "self": self_lt, "views": views_lt})
+    if len(out) != 2:
+        err("entry query signatures: expected 2 `pub fn query`, found %d" % len(out))
+    return out
+
+
+def fn_bodies(text):
+    """Yield (name, start, body) for every fn item (brace matched)."""
+    for m in re.finditer(r"\bfn\s+(\w+)\s*[<(]", text):
+        i = text.find("{", m.end())
+        semi = text.find(";", m.end())
+        if i < 0 or (0 <= semi < i):
+            continue
+        depth, j = 0, i
+        while j < len(text):
+            if text[j] == "{":
+                depth += 1
+            elif text[j] == "}":
+                depth -= 1
+                if depth == 0:
+                    break
+            j += 1
+        yield m.group(1), m.start(), text[i:j + 1]
+
+
+def world_ctor_graph(repo):
+    """Functions under src/world that build a `World` by struct literal, and the call edges among
+    the constructors; which of them run `assert_no_duplicates`."""
+    lits, calls, asserts = [], {}, {}
+    wdir = os.path.join(repo, "src", "world")
+    for f in sorted(os.listdir(wdir)):
+        if not f.endswith(".rs") or f == "verif.rs":
+            continue
+        rel = "world/" + f
+        text = strip_comments(read(repo, rel))
+        for name, start, body in fn_bodies(text):
+            flat = " ".join(body.split())
+            key = "%s::%s" % (f[:-3], name)
+            has_lit = bool(re.search(r"\b(Self|World)\s*\{\s*archetypes\b", flat))
+            if has_lit:
+                lits.append(key)
+                item("worldCtorGraph", rel, lineno(text, start), "fn %s … struct literal" % name, {"literal_in": key})
+            cs = [c for c in ("from_raw_parts", "with_resources", "new") if re.search(r"\b(Self|World)::%s\(" % c, flat) or re.search(r"\bWorld::<[^>]*>::%s\(" % c, flat)]
+            if cs:
+                calls[key] = cs
+            asserts[key] = "assert_no_duplicates(" in flat
+    return lits, calls, asserts
+
+
+def batch_ctor(repo):
+    rel = "entities/mod.rs"
+    text = " ".join(strip_comments(read(repo, rel)).split())
+    new_checks = bool(re.search(r"pub fn new\(entities: Entities\) -> Self \{ assert!\(entities\.check_len\(\)\); unsafe \{ Self::new_unchecked\(entities\) \} \}", text))
+    unchecked_unsafe = "pub unsafe fn new_unchecked(entities: Entities) -> Self" in text
+    item("batchCtor", rel, 0, "Batch::new / new_unchecked", {"new_asserts_check_len": new_checks, "new_unchecked_is_unsafe": unchecked_unsafe})
+    rel2 = "entities/sealed/length.rs"
+    t2 = " ".join(strip_comments(read(repo, rel2)).split())
+    head = bool(re.search(r"fn check_len\(&self\) -> bool \{ self\.1\.check_len_against\(self\.component_len\(\)\) \}", t2))
+    m = re.search(r"impl<C, E> Length for \(Vec<C>, E\).*?fn check_len_against\(&self, len: usize\) -> bool \{ (.*?) \}", t2)
+    body = m.group(1) if m else ""
+    compares = "self.component_len() == len" in body or "self.0.len() == len" in body
+    recurses = "self.1.check_len_against(len)" in body and "&&" in body
+    null_true = bool(re.search(r"impl Length for Null \{.*?fn check_len\(&self\) -> bool \{ true \} fn check_len_against\(&self, _len: usize\) -> bool \{ true \}", t2))
+    item("checkLen", rel2, 0, body, {"check_len_uses_first_column": head, "compares": compares, "recurses": recurses, "null_true": null_true})
+    return new_checks, unchecked_unsafe, head, compares, recurses, null_true
+
+
+def assert_nodup(repo):
+    rel = "registry/sealed/assertions.rs"
+    t = " ".join(strip_comments(read(repo, rel)).split())
+    inserts = "assert!(components.insert(TypeId::of::<C>()));" in t
+    recurses = "R::assert_no_duplicates(components);" in t
+    item("assertNoDuplicates", rel, 0, "impl Assertions for (C, R)", {"asserts_insert": inserts, "recurses": recurses})
+    return inserts, recurses
+
+
+def lean_bool(b):
+    return "true" if b else "false"
+
+
+def lean_str(s):
+    return '"' + s.replace("\\", "\\\\").replace('"', '\\"') + '"'
+
+
 def main():
     ap = argparse.ArgumentParser()
-    ap.add_argument("--repo", default="/repo"); ap.add_argument("--out"); ap.add_argument("--report")
+    ap.add_argument("--repo", default="/repo")
+    ap.add_argument("--out", required=True)
+    ap.add_argument("--report")
     a = ap.parse_args()
     os.makedirs(a.out, exist_ok=True)
+
+    vrows, vnull = verifier_table(a.repo)
+    mrows = merger_table(a.repo)
+    null_append, cut_cut, app_rest = check_table(a.repo)
+    crows = claim_try_merge(a.repo)
+    srows = subviewable_table(a.repo)
+    frows, fcomb = view_filter_table(a.repo)
+    ssi = send_sync_impls(a.repo)
+    eqs = entry_query_sigs(a.repo)
+    lits, calls, asserts = world_ctor_graph(a.repo)
+    bnew, bunsafe, clhead, clcmp, clrec, clnull = batch_ctor(a.repo)
+    ains, arec = assert_nodup(a.repo)
+
+    L = []
+    L.append("/- @generated by translator/translate.py from /repo/src — do not edit; regenerated on every check -/")
+    L.append("import BroodModel.Static")
+    L.append("namespace Brood.Generated")
+    L.append("open Brood.Static")
+    L.append("")
+    L.append("/-- src/system/schedule/claim/verifier.rs: (new view kind, kind under which the component is already claimed, decision) -/")
+    L.append("def verifierTable : List VRow := [")
+    L.append(",\n".join("  ⟨.%s, %s, .%s⟩" % (n, ".notPresent" if o == "notPresent" else "(.claimed .%s)" % o, d) for n, o, d, _ in vrows))
+    L.append("]")
+    L.append("def verifierNull : D2 := .%s" % vnull.lower())
+    L.append("")
+    L.append("/-- src/system/schedule/claim/merger.rs -/")
+    L.append("def mergerTable : List (D2 × D2 × D2) := [" + ", ".join("(.%s, .%s, .%s)" % r for r in mrows) + "]")
+    L.append("/-- src/system/schedule/claim/mod.rs: Null ⇒ Append; Check<Cut> ⇒ Cut; Check<Append> ⇒ rest -/")
+    L.append("def checkShape : Bool × Bool × Bool := (%s, %s, %s)" % (lean_bool(null_append), lean_bool(cut_cut), lean_bool(app_rest)))
+    L.append("")
+    L.append("/-- src/query/view/claim.rs `Claim::try_merge` -/")
+    cl = {"None": ".none", "Immutable": ".immutable", "Mutable": ".mutable"}
+    L.append("def claimTryMerge : List (Cl × Cl × Option Cl) := [" + ", ".join("(%s, %s, %s)" % (cl[x], cl[y], "none" if z is None else "some " + cl[z]) for x, y, z in crows) + "]")
+    L.append("")
+    L.append("/-- src/query/view/subset.rs: (sub-view kind, super-view kind) pairs that have a `SubViewable` impl -/")
+    L.append("def subViewableTable : List (VK × VK) := [" + ", ".join("(.%s, .%s)" % (s, p) for s, p, _ in srows) + "]")
+    L.append("")
+    L.append("/-- src/registry/contains/filter/sealed.rs: does the view / filter atom test the identifier bit? -/")
+    L.append("def viewFilterTests : List (String × Bool) := [" + ", ".join("(%s, %s)" % (lean_str(k), lean_bool(v)) for k, v in sorted(frows.items())) + "]")
+    L.append("def filterCombinators : List (String × Bool) := [" + ", ".join("(%s, %s)" % (lean_str(k), lean_bool(v)) for k, v in sorted(fcomb.items())) + "]")
+    L.append("")
+    L.append("/-- every `unsafe impl Send/Sync` under src/: (type, trait, bounds as (parameter, bound)) -/")
+    L.append("def sendSyncImpls : List SSImpl := [")
+    L.append(",\n".join("  ⟨%s, %s, [%s]⟩" % (lean_str(ty), lean_str(tr), ", ".join("(%s, %s)" % (lean_str(x), lean_str(y)) for x, y in bs)) for ty, tr, bs, _ in ssi))
+    L.append("]")
+    L.append("")
+    L.append("/-- `pub fn query` of world::Entry and query::Entry: is the returned views' lifetime the `&mut self` borrow? -/")
+    L.append("def entryQuerySigs : List (String × Bool) := [" + ", ".join("(%s, %s)" % (lean_str(r), lean_bool(t)) for r, t, _, _ in eqs) + "]")
+    L.append("")
+    L.append("/-- src/world/*.rs: functions containing a `World { … }` struct literal; constructor call edges; who asserts -/")
+    L.append("def worldLiterals : List String := [" + ", ".join(lean_str(x) for x in lits) + "]")
+    L.append("def worldCalls : List (String × List String) := [" + ", ".join("(%s, [%s])" % (lean_str(k), ", ".join(lean_str(c) for c in v)) for k, v in sorted(calls.items())) + "]")
+    L.append("def worldAsserts : List (String × Bool) := [" + ", ".join("(%s, %s)" % (lean_str(k), lean_bool(v)) for k, v in sorted(asserts.items())) + "]")
+    L.append("/-- src/registry/sealed/assertions.rs: (asserts the insert, recurses) -/")
+    L.append("def assertNoDupShape : Bool × Bool := (%s, %s)" % (lean_bool(ains), lean_bool(arec)))
+    L.append("/-- src/entities/mod.rs + sealed/length.rs: (Batch::new asserts check_len, new_unchecked is unsafe, check_len compares against the first column, check_len_against compares, recurses, Null is true) -/")
+    L.append("def batchShape : List Bool := [%s]" % ", ".join(lean_bool(x) for x in (bnew, bunsafe, clhead, clcmp, clrec, clnull)))
+    L.append("")
+    L.append("end Brood.Generated")
+    text = "\n".join(L) + "\n"
+    path = os.path.join(a.out, "Tables.lean")
+    try:
+        same = open(path).read() == text
+    except FileNotFoundError:
+        same = False
+    if not same:
+        open(path, "w").write(text)
     if a.report:
-        json.dump({}, open(a.report, "w"))
-    return 0
+        json.dump(REPORT, open(a.report, "w"), indent=1)
+    for e in REPORT["errors"]:
+        print("translator error:", e, file=sys.stderr)
+    print("translator: %d items, %d errors -> %s" % (len(REPORT["items"]), len(REPORT["errors"]), path))
+    return 1 if REPORT["errors"] else 0
+
+
 if __name__ == "__main__":
     sys.exit(main())
